@@ -35,7 +35,7 @@ FLOORS = {'quick': {'decisions_ran': 5000, 'decisions_not_ran': 5000, 'multi_ste
                     'mid_step_registry_changes': 1000,
                     'reach:Core.Model.execute': 1000, 'reach:Core.SystemManager.execute_systems': 5000},
           'thorough': {'decisions_ran': 500000, 'decisions_not_ran': 500000, 'multi_step_calls': 100000,
-                       'rejected_n_value': 30000, 'rejected_n_type': 30000, 'box_windows': 1000}}
+                       'rejected_n_value': 30000, 'rejected_n_type': 30000, 'box_windows': 950}}
 EXHAUSTIVE = {}
 
 
